@@ -35,6 +35,7 @@ class _Win(Entry):
     wdtype = torch.float64
     xdtype = torch.float64
     shared_w = False             # one weight row shared by the tasks (MSE sample_weight)
+    zero_weights = True          # weight tensors that are all zero / partly zero are generated
     extra_opts = [{}]
 
     # ---- configuration
@@ -84,7 +85,16 @@ class _Win(Entry):
         if mode == "scalar":
             w = rng.choice(WEIGHTS)
             return mode, [[w] * n for _ in range(rows)]
-        return mode, [[rng.choice(WEIGHTS) for _ in range(n)] for _ in range(rows)]
+        w = [[rng.choice(WEIGHTS) for _ in range(n)] for _ in range(rows)]
+        if self.zero_weights:
+            u = rng.random()
+            if u < 0.15:                                  # an explicit ALL-ZERO weight tensor
+                w = [[F(0)] * n for _ in range(rows)]
+            elif u < 0.35:                                # partly zero (possibly a whole task)
+                w = [[F(0) if rng.random() < 0.4 else x for x in r] for r in w]
+                if rows > 1 and rng.random() < 0.3:
+                    w[rng.randrange(rows)] = [F(0)] * n
+        return mode, w
 
     def gen_batch(self, rng, cfg, n):
         T = cfg["num_tasks"]
@@ -93,6 +103,18 @@ class _Win(Entry):
         return {"x": [self.gen_x(rng, n) for _ in range(T)],
                 "y": [self.gen_y(rng, n) for _ in range(T)] if self.has_y else [],
                 "w": w, "wmode": mode}
+
+    def update(self, metric, cfg, batch):
+        """The harness is a caller that REUSES its batch tensors: after update() returns, every
+        tensor it passed is overwritten.  A metric that adopted one of them by reference instead
+        of copying shows a different state / result from then on (the model has value semantics)."""
+        a, k = self.args(cfg, batch)
+        try:
+            return metric.update(*a, **k)
+        finally:
+            for t in list(a) + list(k.values()):
+                if isinstance(t, torch.Tensor):
+                    t.fill_(0.5)
 
     def _t(self, cfg, rows, dtype):
         t = tens(rows, dtype)
@@ -206,6 +228,7 @@ class WNE(_Win):
 class WAUROC(_Win):
     name, cls, model, ref_cls = "WindowedBinaryAUROC", M.WindowedBinaryAUROC, "wauroc", M.BinaryAUROC
     granularity = "sample"
+    zero_weights = False
     scalar_weight = False
     none_weight = True
     wdtype = torch.float32
@@ -239,6 +262,8 @@ class WAUROC(_Win):
     def gen_batch(self, rng, cfg, n):
         T, N = cfg["num_tasks"], cfg["max_num_samples"]
         n = rng.randint(1, 2 * N + 1)                  # batches of one ... larger than the window
+        if rng.random() < 0.3:
+            n = N                                      # exactly the window (the copy_ / adoption branch)
         lo = 0 if cfg.get("zeros") else 1
         mode, w = self.gen_w(rng, cfg, n, T)
         xs = [grid(rng, n, 8, lo, 8) for _ in range(T)]
